@@ -48,6 +48,7 @@ def _shapes(tier):
     from .. import util_knots as K
     out += K.tall_curve_shapes(tier)
     out += K.variety_shapes(tier, pdims=(1, 2))
+    out += K.zero_shapes(tier, pdims=(3,))      # 0.0 as an interior knot / domain end of a volume direction
     degs = [1, 2, 3]
     for pu, pv in itertools.product(degs, degs):
         ru = A.rep_kvs(pu, 1)[:3] if q else A.rep_kvs(pu, 1)
